@@ -16,10 +16,10 @@ func init() {
 		Level: "Decides that every record type the encoders can write has a case in every replay / checkpoint / tailing switch (or is in the table of types that legitimately do not occur there), " +
 			"that each checkpoint case re-encodes with the matching encoder, that series records are logged before records that refer to them, and that every function deleting series records " +
 			"their WAL expiry under the expiry lock before a checkpoint may drop the series record.",
-		Note:     "Trusted: go/packages, go/types, go/cfg; the exception tables in checker/c15.go.",
-		Covers:   "record.Type exhaustiveness in wlog.Checkpoint, Head.loadWAL, Head.loadWBL, agent.DB.loadWAL, Watcher.readSegment; decode/encode pair table of Checkpoint; series-first order in headAppenderBase.log and agent appenderBase.log; walExpiries discipline of gc/gcSeries/deleteSeriesByID/truncateWAL/keepSeriesInWALCheckpointFn; agent db.deleted discipline.",
-		NotCover: "the mint / segment comparisons that decide which record is kept (runtime values).",
-		Run:      runC15,
+		Note:           "Trusted: go/packages, go/types, go/cfg; the exception tables in checker/c15.go.",
+		Covers:         "record.Type exhaustiveness in wlog.Checkpoint, Head.loadWAL, Head.loadWBL, agent.DB.loadWAL, Watcher.readSegment; decode/encode pair table of Checkpoint; series-first order in headAppenderBase.log and agent appenderBase.log; walExpiries discipline of gc/gcSeries/deleteSeriesByID/truncateWAL/keepSeriesInWALCheckpointFn; agent db.deleted discipline.",
+		NotCover:       "the mint / segment comparisons that decide which record is kept (runtime values).",
+		Run:            runC15,
 		MinObligations: 45,
 	})
 }
